@@ -213,6 +213,50 @@ def judge_case(ref, top, v, props, results, cid, spans_le, canon, viol, art, fix
                 viol('C19', 'cpp|' + why.split(' at ')[0].split(' .')[0], art('big', canon['>'], why))
 
 
+def reuse_differs(r, rf):
+    """None or (kind, text): result r of decoding into a used object against rf of a fresh object."""
+    if 'crash' in r:
+        return ('crash|' + D.crash_frame(r['crash']), r['crash'][-1200:])
+    if 'crash' in rf or 'exc' in rf:
+        return None         # judged on the fresh case
+    for k in ('ok', 'exc', 'gbs', 'pn', 'vhex', 'print'):
+        if r.get(k) != rf.get(k):
+            return ('%s-differs-from-fresh-object' % k, 'decode into a used object: %s=%s, into a fresh object: %s=%s' % (
+                k, str(r.get(k))[:200], k, str(rf.get(k))[:200]))
+    return None
+
+
+def judge_built(ref, top, r, props, ename, data, spans, render_ok):
+    """Result of encoding / printing an object that was built through its public members (op build)."""
+    out = []
+    shape = pyjudge._shape_key(ref, top, None)
+    if 'crash' in r:
+        for pid in ('C03', 'C18'):
+            if pid in props:
+                out.append((pid, 'cpp|built|crash|%s|%s' % (D.crash_frame(r['crash']), shape),
+                            'sanitizer abort on an object built through its members: %s' % r['crash'][-1500:]))
+        return out
+    vhex = r.get('vhex')
+    if 'C03' in props:
+        gbs = r.get('gbs', '')
+        if vhex is None:
+            if not gbs.startswith('ABSURD') and 'pn' in r and int(r['pn']) != int(gbs):
+                out.append(('C03', 'cpp|built-encode|vector-size-differs-from-written|d=%+d|%s' % (int(gbs) - int(r['pn']), shape),
+                            'encode<%s>() of the built object would return a %s-byte vector while the encoder writes %s bytes' % (
+                                ename, gbs, r['pn'])))
+        else:
+            got = bytes.fromhex(vhex) if vhex != '-' else b''
+            if got != data:
+                out.append(('C03', 'cpp|built-encode|' + sse.diagnose(ref, top, data, spans, got),
+                            'C++ encode<%s>() of the object built through its members returns %s' % (ename, got.hex())))
+    if 'C18' in props and render_ok is not None and ename == 'little' and 'print' in r:
+        text = bytes.fromhex(r['print']).decode('latin-1') if r.get('print', '-') != '-' else ''
+        if text != render_ok:
+            out.append(('C18', 'cpp|built-print|' + render_diff_key(render_ok, text),
+                        'C++ print() of the built object:\n%s\nexpected:\n%s' % (text, render_ok)))
+    return out
+
+
 def size_consistency(r, fixed_size):
     gbs = r.get('gbs', '')
     if gbs.startswith('ABSURD'):
@@ -279,6 +323,7 @@ def judge_batch(job):
                 vg = V.Values(ref, tier)
                 cases = []
                 meta = {}
+                reuse_prime = {}
                 for si, (st, top) in enumerate(zip(prep.states, prep.tops)):
                     out['states'] += 1
                     site_of[st.key] = known_site(ref, top)
@@ -291,6 +336,7 @@ def judge_batch(job):
                         vals, _ = vg.enumerate(top, vcap)
                     vals = vals[:max(vcap, 1) + 4] if vcap <= 2 else vals
                     lay = ref.layout(top)
+                    prev_canon = None
                     for vi, v in enumerate(vals):
                         le, spans = ref.encode(top, v, '<')
                         be, _ = ref.encode(top, v, '>')
@@ -304,13 +350,26 @@ def judge_batch(job):
                         out['values'] += 1
                         if sse.nontrivial(spans):
                             out['nontrivial'] += 1
+                        this_canon = {'<': le, '>': be}
                         for ename, e in ENDIANS:
                             cases.append(('%s.%s' % (cid, ename), top, ename, 'dec', le if e == '<' else be))
-                            if 'C05' in props and ename != 'native':
+                            if ename != 'native':
                                 for op in ops:
                                     if op == 'fresh' and vi:
                                         continue        # one default-constructed object per type and byte order
-                                    cases.append(('%s.%s.%s' % (cid, ename, op), top, ename, op, le if e == '<' else be))
+                                    if op == 'reuse':
+                                        # this value decoded into the object that has just held the previous value
+                                        if prev_canon is None:
+                                            continue
+                                        cases.append(('%s.%s.reuse' % (cid, ename), top, ename, 'reuse',
+                                                      (prev_canon[e], le if e == '<' else be)))
+                                        reuse_prime[(cid, ename)] = prev_canon[e]
+                                        out['op_cases'][op] = out['op_cases'].get(op, 0) + 1
+                                        continue
+                                    if op != 'build' and 'C05' not in props:
+                                        continue
+                                    cases.append(('%s.%s.%s' % (cid, ename, op), top, ename, op,
+                                                  D.value_words(ref, top, v) if op == 'build' else le if e == '<' else be))
                                     out['op_cases'][op] = out['op_cases'].get(op, 0) + 1
                         if getattr(prep, 'pymod', None) is not None:
                             # what the Python codec wrote, where it differs from the documented bytes
@@ -322,6 +381,7 @@ def judge_batch(job):
                                 if pyb != (le if e == '<' else be):
                                     cases.append(('%s.%s.py' % (cid, ename), top, ename, 'dec', pyb))
                                     meta.setdefault('py', {})[(cid, ename)] = pyb
+                        prev_canon = this_canon
                 results = D.run_driver(prep.exe, cases)
                 out['exec'] += len(cases)
                 for cid, mv in meta.items():
@@ -338,7 +398,7 @@ def judge_batch(job):
                         a = sse.artefact_for(st, top, ref, prep.defs, v, ename, data, '', detail)
                         a['side'] = 'cpp'
                         # the cases of the same type run earlier in the same process (for order-dependent failures)
-                        a['history'] = [[c[2], c[3], c[4].hex()] for c in cases if c[1] == top and c[0].split('.')[0] == cid.split('.')[0]
+                        a['history'] = [[c[2], c[3], D._hex(c[4])] for c in cases if c[1] == top and c[0].split('.')[0] == cid.split('.')[0]
                                         and int(c[0].split('.')[1]) < int(cid.split('.')[1])][-12:]
                         return a
                     judge_case(ref, top, v, props, results, cid, spans, canon, viol, art, fixed_size, render_ok)
@@ -370,6 +430,25 @@ def judge_batch(job):
                                 if why:
                                     viol('C05', 'cpp|%s|%s|%s' % (op, why[0], pyjudge._shape_key(ref, top, None)),
                                          dict(art(ename, canon[e], 'after %s: %s' % (op, why[1])), op=op))
+                    if 'reuse' in ops:
+                        for ename, e in ENDIANS[:2]:
+                            r, rf = results.get('%s.%s.reuse' % (cid, ename)), results.get('%s.%s' % (cid, ename))
+                            if r is None or rf is None:
+                                continue
+                            why = reuse_differs(r, rf)
+                            if why:
+                                for pid in props:
+                                    if pid in ('C03', 'C18') and (pid == 'C18') == why[0].startswith('print'):
+                                        viol(pid, 'cpp|reuse|%s|%s' % (why[0], pyjudge._shape_key(ref, top, None)),
+                                             dict(art(ename, canon[e], why[1]), op='reuse', prime=reuse_prime[(cid, ename)].hex()))
+                    if 'build' in ops:
+                        # the same value assigned through the public members (no decoder involved)
+                        for ename, e in ENDIANS[:2]:
+                            r = results.get('%s.%s.build' % (cid, ename))
+                            if r is None:
+                                continue
+                            for pid, key, detail in judge_built(ref, top, r, props, ename, canon[e], spans, render_ok):
+                                viol(pid, key, dict(art(ename, canon[e], detail), op='build'))
                     if len(out['samples']) < 2:
                         r = results.get(cid + '.little') or {}
                         out['samples'].append({'state': st.key, 'value': repr(v)[:160], 'little': canon['<'].hex(),
@@ -460,12 +539,19 @@ def replay(art, pid):
         canon = {'<': le, '>': be}
         cases = []
         for hi, (hen, hop, hhex) in enumerate(art.get('history') or []):
-            cases.append(('h%d' % hi, top, hen, hop, bytes.fromhex(hhex)))
+            hhex = hhex.replace('-', '')
+            cases.append(('h%d' % hi, top, hen, hop, tuple(bytes.fromhex(h) for h in hhex.split('/')) if '/' in hhex
+                          else bytes.fromhex(hhex)))
         ops = [art['op']] if art.get('op') else []
         for ename, e in ENDIANS:
             cases.append(('0.0.%s' % ename, top, ename, 'dec', canon[e]))
             for op in ops:
-                cases.append(('0.0.%s.%s' % (ename, op), top, ename, op, canon[e]))
+                if op == 'reuse':
+                    if ename == art.get('endian'):
+                        cases.append(('0.0.%s.reuse' % ename, top, ename, 'reuse', (bytes.fromhex(art['prime']), canon[e])))
+                    continue
+                cases.append(('0.0.%s.%s' % (ename, op), top, ename, op,
+                              D.value_words(ref, top, v) if op == 'build' else canon[e]))
         pybytes = None
         if 'Python' in art.get('detail', '') and art.get('expected'):
             # the case fed what the Python codec wrote: decode exactly those bytes
@@ -492,9 +578,15 @@ def replay(art, pid):
         for ename, e in ENDIANS[:2]:
             for op in ops:
                 r = results.get('0.0.%s.%s' % (ename, op))
-                if r and 'crash' in r:
+                if r and op == 'reuse':
+                    why = reuse_differs(r, results.get('0.0.%s' % ename) or {})
+                    if why:
+                        found.append(why)
+                elif r and op == 'build' and pid != 'C05':
+                    found += [(k, d) for p_, k, d in judge_built(ref, top, r, (pid,), ename, canon[e], spans, render_ok)]
+                elif r and 'crash' in r:
                     found.append(('crash', r['crash'][-800:]))
-                elif r and r.get('ok') == '1':
+                elif r and r.get('ok') == '1' and pid == 'C05':
                     why = size_consistency(r, fixed_size)
                     if why:
                         found.append(why)
